@@ -87,6 +87,9 @@ var uid int64
 // synthNil: object arguments are synthesised as nil (used by the probe's "nil-args" variant).
 var synthNil bool
 
+// synthSelf: an argument of the receiver's own type is the receiver itself (m.PutAll(m)).
+var synthSelf bool
+
 // synth builds an argument of type t. keyPool bounds the key space.
 func synth(t reflect.Type, r *vlib.Rand, keyPool int, recv reflect.Value, depth int) reflect.Value {
 	k := r.Intn(keyPool)
@@ -126,6 +129,9 @@ func synth(t reflect.Type, r *vlib.Rand, keyPool int, recv reflect.Value, depth 
 		}
 		return s
 	case reflect.Ptr:
+		if synthSelf && depth == 0 && recv.IsValid() && t == recv.Type() {
+			return recv
+		}
 		if depth < 2 && recv.IsValid() && t == recv.Type() {
 			// another populated instance of the same type (PutAll(other) …)
 			for _, ct := range ctypes {
@@ -257,13 +263,24 @@ func selfDeadlockProbe(c *vlib.Ctx) {
 			continue
 		}
 		typ := reflect.TypeOf(ct.mk())
-		variants := []string{"populated", "empty", "nil-args"}
+		variants := []string{"populated", "empty", "nil-args", "self-arg"}
 		if _, ok := typ.MethodByName("SetMax"); ok {
 			variants = append(variants, "bounded-full")
 		}
 		for _, variant := range variants {
 			for mi := 0; mi < typ.NumMethod(); mi++ {
 				mname := typ.Method(mi).Name
+				if variant == "self-arg" {
+					// only methods that take an instance of the receiver's own type
+					takes := false
+					mt := typ.Method(mi).Type
+					for a := 1; a < mt.NumIn(); a++ {
+						takes = takes || mt.In(a) == typ
+					}
+					if !takes {
+						continue
+					}
+				}
 				id := fmt.Sprintf("selfdeadlock/%s.%s/%s", ct.name, mname, variant)
 				if (c.Only != "" && c.Only != id) || c.Resume[id] {
 					continue
@@ -272,7 +289,7 @@ func selfDeadlockProbe(c *vlib.Ctx) {
 				r := c.Rand(id)
 				inst := reflect.ValueOf(ct.mk())
 				switch variant {
-				case "populated":
+				case "populated", "self-arg":
 					populate(inst, r, 4)
 				case "bounded-full":
 					// bound the structure to what it holds, so that every insert path has to evict
@@ -296,6 +313,7 @@ func selfDeadlockProbe(c *vlib.Ctx) {
 					kp = 1 << 20
 				}
 				synthNil = variant == "nil-args"
+				synthSelf = variant == "self-arg"
 				go probeCall(m, r, inst, kp, done)
 				verdict := ""
 				var pan interface{}
@@ -332,6 +350,7 @@ func selfDeadlockProbe(c *vlib.Ctx) {
 				c.SetAdd("types_probed", ct.name)
 				c.DistinctStr(id)
 				synthNil = false
+				synthSelf = false
 				switch verdict {
 				case "returned":
 					if pan != nil {
@@ -857,6 +876,172 @@ func wholeOpBlocking(c *vlib.Ctx, ct ctype, r *vlib.Rand, label string, writers,
 	c.DistinctStr(fmt.Sprintf("wholeblock|%s|%d|%d|%s", ct.name, writers, gomax, label))
 }
 
+// ---- monitor 1d: two shared instances at once, with cross arguments ------------------------------
+//
+// Two instances of one type are hammered at the same time; a share of the calls on A take B as
+// an argument and the other way round (a.PutAll(b) next to b.PutAll(a)). A method that holds its
+// own lock while taking the argument's lock deadlocks here (opposite lock order), and every
+// later operation on either instance parks behind it: all workers parked on a mutex is the
+// conclusive verdict of waitOrDeadlock.
+func pairStress(c *vlib.Ctx, ct ctype, r *vlib.Rand, label string, goroutines, opsPer, gomax int) {
+	old := runtime.GOMAXPROCS(gomax)
+	defer runtime.GOMAXPROCS(old)
+	insts := [2]reflect.Value{reflect.ValueOf(ct.mk()), reflect.ValueOf(ct.mk())}
+	typ := insts[0].Type()
+	type op struct {
+		name  string
+		idx   int
+		cross bool
+	}
+	var ops []op
+	hasCross := false
+	for i := 0; i < typ.NumMethod(); i++ {
+		n := typ.Method(i).Name
+		mt := typ.Method(i).Type
+		takes := false
+		for a := 1; a < mt.NumIn(); a++ {
+			takes = takes || mt.In(a) == typ
+		}
+		switch {
+		case takes:
+			ops = append(ops, op{n, i, true}, op{n, i, true}, op{n, i, true})
+			hasCross = true
+		case pointOps[n]:
+			if n == "Get" && strings.HasPrefix(ct.name, "Request") {
+				continue
+			}
+			if n == "Remove" && ct.name == "LinkedList" {
+				continue
+			}
+			ops = append(ops, op{n, i, false})
+		}
+	}
+	if !hasCross {
+		return
+	}
+	for k := range insts {
+		populate(insts[k], r, 8)
+	}
+	var wg sync.WaitGroup
+	var progress int64
+	var crossCalls int64
+	for g := 0; g < goroutines; g++ {
+		wg.Add(1)
+		gr := r.Fork(fmt.Sprint("g", g))
+		g := g
+		go stressWorker(&wg, &progress, func(i int) {
+			o := ops[gr.Intn(len(ops))]
+			me := insts[(g+i)%2]
+			if o.name == "Clear" && gr.Intn(8) != 0 {
+				return
+			}
+			if o.cross {
+				other := insts[(g+i+1)%2]
+				m := me.Method(o.idx)
+				mt := m.Type()
+				args := make([]reflect.Value, mt.NumIn())
+				for a := range args {
+					if mt.In(a) == typ {
+						args[a] = other
+					} else {
+						args[a] = synth(mt.In(a), gr, 6, me, 0)
+					}
+				}
+				func() {
+					defer func() { recover() }()
+					m.Call(args)
+				}()
+				atomic.AddInt64(&crossCalls, 1)
+				return
+			}
+			callRecovered(me.Method(o.idx), gr, 6, me)
+		}, opsPer)
+	}
+	tname := strings.SplitN(ct.name, "(", 2)[0]
+	if verdict, stack := waitOrDeadlock(&wg, &progress, "main.stressWorker"); verdict != "done" {
+		if verdict == "deadlock" {
+			c.Fail(tname+":deadlock-between-two-instances", "goroutines operating on two instances of the type, some calls taking the other instance as argument, are all parked on the structures' own mutexes: the run can never finish (lock order)",
+				map[string]interface{}{"type": ct.name, "goroutines": goroutines, "goroutine": stack})
+		} else {
+			c.Inconclusive(label, "pair stress made no progress for 5 minutes but is not parked on a mutex")
+		}
+		return
+	}
+	c.Count("pair_stress_runs", 1)
+	c.Count("pair_stress_cross_calls", atomic.LoadInt64(&crossCalls))
+	c.SetAdd("pair_stress_types", tname)
+	c.DistinctStr(fmt.Sprintf("pair|%s|%d|%d|%s", ct.name, goroutines, gomax, label))
+}
+
+// ---- bystanders ------------------------------------------------------------------------------------
+//
+// Throughout the run a few goroutines use PRIVATE instances of the string- and integer-keyed types
+// (nobody else ever sees them). A private instance used by one goroutine is sequential, so put /
+// get / remove on it must behave sequentially whatever the other goroutines of the process do to
+// THEIR instances: process-wide scratch state behind the per-instance locks (a shared hash buffer,
+// a shared entry pool) shows here, and — because the bystanders keep that state busy — in the
+// histories of the shared instances as well.
+var bystanderOps, bystanderFaults int64
+var bystanderFirst atomic.Value
+
+//go:noinline
+func bystander(id int, stop *int32) {
+	ss := hmap.NewStringSet()
+	sk := hmap.NewStringKeyLinkedMap()
+	si := hmap.NewStringIntLinkedMap()
+	ik := hmap.NewIntKeyMapDefault()
+	fail := func(what string) {
+		if atomic.AddInt64(&bystanderFaults, 1) == 1 {
+			bystanderFirst.Store(what)
+		}
+	}
+	for n := 0; atomic.LoadInt32(stop) == 0; n++ {
+		k := fmt.Sprintf("bystander-%d-%d-%s", id, n, strings.Repeat("x", n%23))
+		func() {
+			defer func() {
+				if e := recover(); e != nil {
+					fail(fmt.Sprintf("panic on a private instance: %v", e))
+				}
+			}()
+			ss.Put(k)
+			if !ss.Contains(k) {
+				fail("StringSet: Contains(k) false right after Put(k) on a private instance")
+			}
+			sk.Put(k, n)
+			if v := sk.Get(k); v != n {
+				fail(fmt.Sprintf("StringKeyLinkedMap: Get(k)=%v right after Put(k,%d) on a private instance", v, n))
+			}
+			si.Put(k, int32(n))
+			if v := si.Get(k); v != int32(n) {
+				fail(fmt.Sprintf("StringIntLinkedMap: Get(k)=%v right after Put(k,%d) on a private instance", v, n))
+			}
+			ik.Put(int32(n), k)
+			if v := ik.Get(int32(n)); v != k {
+				fail("IntKeyMap: Get(n) differs right after Put(n) on a private instance")
+			}
+			if n%4 == 3 {
+				ss.Remove(k)
+				sk.Remove(k)
+				si.Remove(k)
+				ik.Remove(int32(n))
+				if ss.Contains(k) || sk.ContainsKey(k) || si.ContainsKey(k) {
+					fail("a key is still present right after Remove on a private instance")
+				}
+			}
+			if n%4096 == 4095 {
+				ss.Clear()
+				sk.Clear()
+				si.Clear()
+				ik.Clear()
+			}
+		}()
+		atomic.AddInt64(&bystanderOps, 1)
+		if n%8 == 0 {
+			time.Sleep(10 * time.Microsecond) // leave the CPU to the monitored runs
+		}
+	}
+}
+
 func main() {
 	c := vlib.Start("C10")
 	isRace := c.Flavour == "race"
@@ -866,6 +1051,10 @@ func main() {
 	if !isRace {
 		selfDeadlockProbe(c)
 	}
+
+	// bystanders on private instances run next to everything that follows
+	var stopBy int32
+	go bystander(0, &stopBy)
 
 	// monitor 1
 	reps := c.N(4, 24)
@@ -904,8 +1093,30 @@ func main() {
 		c.Floor("whole_blocking_runs", int64(len(ctypes)*breps/c.NShards/2), c.Counter("whole_blocking_runs"))
 	}
 
+	// monitor 1d
+	// (plain flavour, like 1b/1c: taking another instance as argument is a whole-structure
+	// operation on that instance — PutAll enumerates it — and the property claims race freedom
+	// for the point operations only; what is judged here is the lock order)
+	preps := c.N(3, 12)
+	if isRace {
+		preps = 0
+	}
+	c.Cases("pair-stress", len(ctypes)*preps, func(i int, r *vlib.Rand) {
+		ct := ctypes[i%len(ctypes)]
+		pairStress(c, ct, r, fmt.Sprint("pair-stress#", i), r.Range(2, 8), c.N(2000, 8000), []int{16, 4, 2, 8}[(i/len(ctypes))%4])
+	})
+
 	// monitor 2
 	runLinearizability(c)
+
+	atomic.StoreInt32(&stopBy, 1)
+	c.Count("bystander_private_instance_rounds", atomic.LoadInt64(&bystanderOps))
+	if n := atomic.LoadInt64(&bystanderFaults); n > 0 {
+		first, _ := bystanderFirst.Load().(string)
+		c.Fail("private-instance-disturbed-by-other-goroutines", fmt.Sprintf("an instance used by ONE goroutine only misbehaved %d times while other goroutines were using their own instances: %s", n, first),
+			map[string]interface{}{"faults": n, "first": first})
+	}
+	c.Floor("bystander_private_instance_rounds", 1000, atomic.LoadInt64(&bystanderOps))
 
 	c.Floor("stress_runs", int64(len(ctypes)*reps/c.NShards/4), c.Counter("stress_runs"))
 	c.Finish()
